@@ -220,11 +220,37 @@ ADDENDA4 = {
 }
 
 
+ADDENDA5 = {
+    "C01": "Round 5: the same statement next to a DATA line spelling the same constants and twice in one program; ecb_int also with argument and result in one variable (by-reference call A = INT(A)).",
+    "C02": "Round 5: STEP expressions with a sign / parentheses over an input variable; every relation with statements, an empty THEN part or an empty ELSE part.",
+    "C03": "Round 5: every prompt of up to two characters over {letter, ?, blank, colon}; array elements assigned directly from converted functions; helper contracts also with result and argument in one variable.",
+    "C04": "Round 5: the same device function with the same operand text several times in one statement.",
+    "C05": "Round 5: POKE value operands (speed-poke addresses included), PRINT items that start with a sign or NOT.",
+    "C06": "Round 5: lines without a statement as targets and as lines passed over.",
+    "C07": "Round 5: LET / no LET x every convertible function as the whole right-hand side; lines without a statement.",
+    "C08": "Round 5: comment content - z3 lemma that comment_text matches every CR/LF/NUL-free text completely, and emitted comment = source text for a product of blank runs and visible characters.",
+    "C09": "Round 5: scalar DIMs with sizes configured per kind; every reserved word is a variable in all accepted positions or in none.",
+    "C10": "Round 5: the whole bundle under a symbolic default size - every DIM / PARAM string declaration of program and library procedures carries it.",
+    "C11": "Round 5: each option rule also from bases with another option changed; -s N reaches convert_file as N for every N in 1..32767 (start() on a z3-backed integer, argparse's str->int step outside).",
+    "C12": "Round 5: configuration objects changed between conversions and configuration files re-read (other directory, edited) equal a fresh process.",
+    "C13": "Round 5: bundles without the standard prologue and / or suffix.",
+    "C15": "Round 5: every operand token replaced by a function the tool hoists in front of the statement.",
+    "C16": "Round 5: two-page raw CM3 with and without the pattern block.",
+    "C17": "Round 5: run-length MGE pair in the history family; pysym models dicts, default arguments, min/max.",
+    "C18": "Round 5: convert() sends nothing to standard output on any path (print / sys.stdout modelled, replayed with stdout captured); CM3 with padding after the picture.",
+    "C19": "Round 5: 640-wide VEF through a modelled and validated Pillow contract (truncated PNG -> OSError).",
+    "C20": "Round 5: both helpers also with the result variable passed as an argument (by reference); STRING$ / INSTR call sites for every spelling of the count / start index.",
+}
+
+
 def build():
     for pid, add in ADDENDA4.items():
         if add not in CHECKS[pid]["text"]:
             CHECKS[pid]["text"] = CHECKS[pid]["text"].rstrip() + " " + add
     for pid, add in ADDENDA.items():
+        if add not in CHECKS[pid]["text"]:
+            CHECKS[pid]["text"] = CHECKS[pid]["text"].rstrip() + " " + add
+    for pid, add in ADDENDA5.items():
         if add not in CHECKS[pid]["text"]:
             CHECKS[pid]["text"] = CHECKS[pid]["text"].rstrip() + " " + add
     checks = []
